@@ -72,7 +72,7 @@ ASSUMPTIONS = ['a PathNamer constructed directly gets os_type "unix" or "windows
                'C1 range are not escaped when ascii is off',
                'the url handed to get_filename begins with "<scheme>://" (URLInfo.url of a network scheme)']
 UNPROVED = ['totality of PathNamer.get_filename on canonical URLs (a path is chosen for EVERY URL) is checked by the oracle only '
-            '(kind namer-raises); known finding: unencoded [ ] in the userinfo make urlsplit refuse URLInfo.url']
+            '(kind namer-raises): every exception before a name is chosen is a VIOLATION']
 
 PID = 'C15'
 
